@@ -70,3 +70,8 @@ Theorem C09_soc_window : forall (r r' : Res (F:=R)) prop aux dt eta eta_lo,
   rs_min_soc s - /1000 * dt / (eta_lo * cap) < rs_soc (res_state r') /\
   rs_soc (res_state r') < rs_max_soc s + /1000 * dt / cap.
 Proof. exact soc_window. Qed.
+
+(* the step-size bound is necessary: a concrete accepted step beyond it leaves the window *)
+Theorem C09_soc_window_refuted_beyond_bound : exists r', res_solve_eta res_w 1000 0 1 1 = Ok r' /\
+  rs_min_soc rs_w <= rs_soc rs_w <= rs_max_soc rs_w /\ rs_soc (res_state r') < rs_min_soc rs_w - / 2.
+Proof. exact soc_window_refuted. Qed.
